@@ -41,10 +41,31 @@ theorem mapEntry_print_parse (e : MapEntry) (h : e.wf = true) :
     parseMappingEntry e.print = (match e.mapping with | some m => .mapping m | none => .skip) :=
   parseMappingEntry_print e h
 
-/-- a printed memory-map section (entries interleaved with comment/blank lines) gives exactly
-the mappings of its executable entries, in order. -/
+/-- a printed memory-map section — entries interleaved with comment/blank lines, attribute lines
+`name=value`, entries whose file is written `$name<suffix>`, any line behind a glog prefix
+`… file.cc:123] ` — gives exactly the mappings of its executable entries, in order, with every
+`$name` standing for the value assigned to `name` earlier in the section. -/
 theorem mapSection_print_parse (m : MapSection) (h : m.wf = true) : parseProcMaps m.bodyLines = m.mappings :=
   parseProcMaps_bodyLines m h
+
+/-- `removeLoggingInfo`: a glog prefix `<text>:<line>] ` (text without brackets) is cut off, whatever follows. -/
+theorem log_prefix_removed (p : LogPrefix) (hp : p.wf = true) (rest : Str) : removeLoggingInfo (p.print ++ rest) = rest :=
+  p.remove hp rest
+
+/-- the `$attr` rule on its own: after `name=value`, an entry whose file is written `$name<suffix>`
+is the entry with file `value<suffix>` (both lines may carry a glog prefix). -/
+theorem map_attr_reference_rule (log1 log2 : Option LogPrefix) (indent : Nat) (name value suffix : Str) (spaced : Bool)
+    (e : MapEntry)
+    (h : (MapSection.mk [([], .attr log1 indent name spaced value), ([], .entryRef log2 e name suffix)] []).wf = true) :
+    parseProcMaps [(MapLine.attr log1 indent name spaced value).print, (MapLine.entryRef log2 e name suffix).print]
+      = (e.withFile (value ++ suffix)).mapping.toList := by
+  have := parseProcMaps_bodyLines _ h
+  simp only [MapSection.bodyLines, printFillers, List.map_nil, List.nil_append, List.flatMap_cons, List.flatMap_nil,
+    List.append_nil, List.singleton_append] at this
+  rw [this]
+  simp only [MapSection.mappings, mappingsOf, MapLine.step, List.nil_append, MapEnv.lookup, List.find?_cons, beq_self_eq_true,
+    Option.map_some]
+  cases (e.withFile (value ++ suffix)).mapping <;> rfl
 
 /-! ### one theorem per format -/
 
@@ -189,6 +210,29 @@ theorem parseData_cpu_shadowed_by_protobuf (scale : ScaleFn) (cyc : CycFn) :
   intro e
   exact shadowed_ne (Outcome.ok.inj e)
 
+/-- Witness of the known finding `C14/count/taken-for-concatenated-protobuf` (same root cause:
+the decoder runs first): a well-formed count profile named `H1H1` — `H` is the tag byte of
+time_nanos, met twice — makes the decoder report `errConcatProfile`, after which `ParseData` does not
+try the legacy parsers at all; the hypothesis `PbRejects` of `parseData_printCount_partial` excludes it. -/
+theorem parseData_count_shadowed_by_concat (scale : ScaleFn) (cyc : CycFn) :
+    concatCountDoc.wf = true ∧
+    parseDataReal scale cyc (printCount concatCountDoc) = .err errConcatProfile ∧
+    ¬ PbRejects (Codec.parseUncompressed (printCount concatCountDoc)) := by
+  refine ⟨concatCount_wf, parseDataReal_concatCount scale cyc, ?_⟩
+  rintro ⟨e, he, _, h2⟩
+  rw [concatCount_pb] at he
+  exact h2 (Outcome.err.inj he).symm
+
+/-- Witness of the known finding `C14/thread/taken-for-heap`: the hypothesis `chainOK` of
+`parseData_printThread_partial` cannot be dropped.  A well-formed threadz document that starts
+directly with the header of a thread NAMED like a heap profile header is claimed by `parseHeap`
+(its header regexp is unanchored), which then fails on the stack lines with an error that is not
+`errUnrecognized` — so `parseThread` is never tried. -/
+theorem parseLegacy_thread_taken_for_heap (scale : ScaleFn) (cyc : CycFn) :
+    heapNamedThreadDoc.wf = true ∧ heapNamedThreadDoc.chainOK = false ∧
+    parseLegacy scale cyc (printThread heapNamedThreadDoc) = .err "unexpected number of sample values" :=
+  ⟨heapNamedThread_wf, heapNamedThread_chain, parseLegacy_heapNamedThread scale cyc⟩
+
 /-! ### the rules the property names -/
 
 /-- The ids `finish` hands to the samples resolve to the raw addresses: for every final sample
@@ -255,9 +299,31 @@ theorem cpu_signal_frame_rule (ss : List RawSample) (hn : ss ≠ []) :
 /-! ### non-vacuity: well-formed documents with records, fillers and a memory map exist -/
 example : (({ pre := [{ indent := 1, comment := some (asc " c") }], name := asc "goroutine", total := 3, width := 8,
               recs := [{ fill := [], n := 2, addrs := [4198401, 1] }], post := [],
-              map := some { entries := [([], { indent := 2, ox := false, width := 8, start := 4194304, limit := 4259840, gap := 0,
-                                               form := .brief true none (some (asc "/bin/x")) none none })], post := [] } } : CountDoc).wf) = true := by
+              map := some { entries := [([], .entry none ⟨2, false, 8, 4194304, 4259840, 0,
+                                               .brief true none (some (asc "/bin/x")) none none⟩)], post := [] } } : CountDoc).wf) = true := by
   decide
+
+-- a memory map with a glog prefix, an attribute and a reference to it (cppbench.heap: `source=/home`, `$source/…`)
+example : (({ entries := [([], .attr (some { text := asc "W1220 15:07:15.2 8272 logger.cc", line := 12033 }) 1 (asc "source") false (asc "/home")),
+                          ([{ indent := 0, comment := some (asc " c") }],
+                           .entryRef none ⟨2, false, 8, 4194304, 4259840, 0, .brief true none none none none⟩
+                             (asc "source") (asc "/cppbench_server_main"))],
+              post := [] } : MapSection).wf) = true := by decide
+
+example : (({ big := false, w64 := true, period := 10000, recs := [{ count := 5, addrs := [3, 4] }], eod := true, blanksAfter := 1,
+              locs := [{ fill := [], indent := 1, width := 8, addr := 3, gap := 0,
+                         kind := .fileLine (asc "com.example.F.f") (asc "F.java") 103 }] } : JavaCpuDoc).wf) = true := by decide
+
+-- a threadz document starting directly with a thread header, whose name is not a heap header
+example : (({ pre := [], head := none, width := 8,
+              recs := [{ id := 1, name := asc "main", tid := 7,
+                         body := .stack [{ blanks := 0, indent := 2, label := .pc, addrs := [4198401], sym := none }] }],
+              ending := .noStack 0 none } : ThreadDoc).chainOK) = true := by decide
+
+-- the decoder hypothesis of the `_partial` theorems holds of an ordinary count document
+example : PbRejects (Codec.parseUncompressed (printCount
+    ⟨[], asc "goroutine", 1, 0, [{ fill := [], n := 1, addrs := [4198401] }], [], none⟩)) :=
+  ⟨"unknown wire type", by decide, by decide, by decide⟩
 
 example : (({ kind := .heapV2, totInuseN := 1, totInuseB := 2, totAllocN := 3, totAllocB := 4, rate := some 1024, pad := 1, width := 0,
               recs := [{ fill := [], indent := 2, inuseN := 1, inuseB := 512, allocN := 2, allocB := 1024, addrs := [4198401] }],
